@@ -22,6 +22,7 @@ import (
 	"verif/checks/c17"
 	"verif/checks/c18"
 	"verif/checks/c19"
+	"verif/checks/c20"
 	"verif/checks/ccrypto"
 	"verif/engine"
 )
@@ -45,6 +46,7 @@ var checks = map[string]check{
 	"C17": {"model_checking", c17.Run},
 	"C18": {"model_checking", c18.Run},
 	"C19": {"model_checking", c19.Run},
+	"C20": {"model_checking", c20.Run},
 	"C03": {"model_checking", c03.Run},
 	"C04": {"exploration", c04.Run},
 	"C05": {"model_checking", ccrypto.RunC05},
